@@ -22,6 +22,65 @@ type c11Case struct {
 	Compress  bool         `json:"compress"`
 	CancelReq int          `json:"cancel_request"` // producers: index of the HTTP request that is a cancel (-1 none)
 	Dyncast   bool         `json:"dyncast,omitempty"`
+	// Peers are further streams that are open on the same servers at the same
+	// time as Call (stream 0); Sched names the stream that sends its next
+	// request at each step. Streams still open after the schedule run to their
+	// end in index order. Caches may then also hold the small sizes 1 and 2.
+	Peers []lib.CallSpec `json:"peers,omitempty"`
+	Sched []int          `json:"sched,omitempty"`
+}
+
+// genC11Dyn draws a dynamic stream whose runtime schemas (output: wide or
+// narrow; input: declared or not; producer or exchange) are part of the draw.
+func genC11Dyn(t *rapid.T, id string) lib.CallSpec {
+	call := lib.CallSpec{Kind: "stream", Method: "s_dyn", CancelAt: -1,
+		Stream: &lib.StreamScript{ID: id, InitOutcome: "ok",
+			DynKind:   []string{"producer", "exchange"}[rapid.IntRange(0, 1).Draw(t, "mkind")],
+			DynInput:  rapid.Bool().Draw(t, "minput"),
+			DynNarrow: rapid.Bool().Draw(t, "mnarrow"),
+			Header:    rapid.Bool().Draw(t, "mhdr")}}
+	nt := rapid.IntRange(2, 5).Draw(t, "mturns")
+	typ := []string{"int64", "int32", "int16"}[rapid.IntRange(0, 2).Draw(t, "mtype")]
+	for i := 0; i < nt; i++ {
+		tu := lib.TurnSpec{Act: "emit", Rows: rapid.IntRange(1, 2).Draw(t, "mrows")}
+		if rapid.IntRange(0, 3).Draw(t, "mlog") == 0 {
+			tu.Logs = []lib.LogSpec{{Level: "INFO", Msg: fmt.Sprintf("%s turn %d", id, i)}}
+		}
+		call.Stream.Turns = append(call.Stream.Turns, tu)
+		if call.Stream.DynKind == "exchange" {
+			call.Inputs = append(call.Inputs, lib.InputSpec{Type: typ, Vals: []int64{int64(i + 1)}})
+		}
+	}
+	if call.Stream.DynKind == "producer" {
+		call.Ticks = nt + 2
+	}
+	return call
+}
+
+// genC11Interleaved turns the case into several streams open at once on
+// servers whose call-state cache may be smaller than the number of open
+// streams.
+func genC11Interleaved(t *rapid.T, c *c11Case) {
+	n := rapid.IntRange(2, 4).Draw(t, "mstreams")
+	calls := make([]lib.CallSpec, n)
+	for k := range calls {
+		calls[k] = genC11Dyn(t, lib.CallID(k))
+	}
+	c.Call, c.Peers = calls[0], calls[1:]
+	c.Limit = []int{1, 1, 2, 0}[rapid.IntRange(0, 3).Draw(t, "mlimit")]
+	c.CancelReq, c.Dyncast = -1, false
+	ninst := rapid.IntRange(1, 2).Draw(t, "mninst")
+	c.Caches, c.Routes, c.Sched = nil, nil, nil
+	for i := 0; i < ninst; i++ {
+		c.Caches = append(c.Caches, []int{1, 1, 2, -1, 0}[rapid.IntRange(0, 4).Draw(t, "mcache")])
+	}
+	for i := 0; i < 8; i++ {
+		c.Routes = append(c.Routes, rapid.IntRange(0, ninst-1).Draw(t, "mroute"))
+	}
+	ns := rapid.IntRange(n, 4*n).Draw(t, "msteps")
+	for i := 0; i < ns; i++ {
+		c.Sched = append(c.Sched, rapid.IntRange(0, n-1).Draw(t, "mstep"))
+	}
 }
 
 func genC11(t *rapid.T) c11Case {
@@ -90,6 +149,9 @@ func genC11(t *rapid.T) c11Case {
 		call.Opts.LogLevel = []string{"TRACE", "DEBUG", "INFO", "WARN", "ERROR"}[rapid.IntRange(0, 4).Draw(t, "llv")]
 	}
 	c.Call = call
+	if rapid.IntRange(0, 4).Draw(t, "interleaved") == 0 {
+		genC11Interleaved(t, &c)
+	}
 	return c
 }
 
@@ -114,7 +176,176 @@ func viewSummary(v lib.ClientView) []string {
 	return out
 }
 
+// c11RuntimeSchemas names the schemas a stream's call state carries.
+func c11RuntimeSchemas(call lib.CallSpec) string {
+	if m, _ := lib.MethodKind(call.Method); m != "dynamic" {
+		return "static:" + call.Method
+	}
+	return fmt.Sprintf("narrow=%v input=%v", call.Stream.DynNarrow, call.Stream.DynKind == "exchange" && call.Stream.DynInput)
+}
+
+// runC11Interleaved runs every stream of the case alone over a pipe, then all
+// of them over HTTP with their requests interleaved as the schedule says
+// (one request in flight at a time: each stream's client waits at a gate the
+// schedule opens). Every stream's HTTP view must equal its own pipe view.
+func runC11Interleaved(c c11Case) (out lib.Outcome) {
+	lib.ResetEvents()
+	calls := append([]lib.CallSpec{c.Call}, c.Peers...)
+	n := len(calls)
+	out.Label("interleaved-streams")
+	pipeViews := make([]lib.ClientView, n)
+	for k, call := range calls {
+		srv := vgirpc.NewServer()
+		lib.RegisterScripted(srv)
+		req, in := call.PipeBytes()
+		pres := lib.RunPipe(srv, append(append([]byte{}, req...), in...))
+		if pres.Panic != "" || pres.DecodeErr != nil {
+			out.Violate("C11/pipe-broken", "pipe run of stream %d broken: %q %v", k, lib.Short(pres.Panic, 100), pres.DecodeErr)
+			return
+		}
+		pipeViews[k] = lib.PipeView(pres.Streams, len(pres.Streams) == 2)
+	}
+	handlers := make([]http.Handler, len(c.Caches))
+	for i, cs := range c.Caches {
+		o := srvOpts{Limit: c.Limit}
+		if cs >= 0 {
+			z := cs
+			o.Cache = &z
+		}
+		handlers[i] = newHTTP(o)
+	}
+	hdr := map[string]string{}
+	if c.Compress {
+		hdr["X-VGI-Accept-Encoding"] = "zstd, gzip"
+	}
+	type gate struct{ arrive, open, done chan struct{} }
+	type reqEv struct{ stream, idx, inst int }
+	gates := make([]gate, n)
+	views := make([]lib.ClientView, n)
+	var trace []reqEv // appended only by the stream that holds the turn
+	for k := range calls {
+		gates[k] = gate{arrive: make(chan struct{}), open: make(chan struct{}), done: make(chan struct{})}
+		go func(k int) {
+			g := gates[k]
+			defer close(g.done)
+			defer func() {
+				if rv := recover(); rv != nil {
+					views[k].Broken = fmt.Sprintf("harness panic: %v", rv)
+				}
+			}()
+			route := func(i int) http.Handler {
+				g.arrive <- struct{}{}
+				<-g.open
+				inst := c.Routes[(k+i)%len(c.Routes)]
+				trace = append(trace, reqEv{k, i, inst})
+				return handlers[inst]
+			}
+			views[k] = lib.RunHTTPStream(route, calls[k], hdr, 200)
+		}(k)
+	}
+	finished := make([]bool, n)
+	wait := func(k int) {
+		select {
+		case <-gates[k].arrive:
+		case <-gates[k].done:
+			finished[k] = true
+		}
+	}
+	for k := range calls {
+		wait(k)
+	}
+	step := func(k int) {
+		if finished[k] {
+			return
+		}
+		gates[k].open <- struct{}{}
+		wait(k) // the request is over once the stream is back at its gate or done
+	}
+	for _, k := range c.Sched {
+		step(k % n)
+	}
+	for k := range calls {
+		for !finished[k] {
+			step(k)
+		}
+	}
+	// classification: a stream continued on an instance with a small cache
+	// after at least that many other streams used the instance since the
+	// stream's own previous request there (an LRU has dropped it by then)
+	maxTurns := 0
+	evicted, evictedOther := false, false
+	for ti, ev := range trace {
+		if ev.idx == 0 {
+			continue
+		}
+		size := c.Caches[ev.inst]
+		if size < 1 {
+			continue
+		}
+		others := map[int]bool{}
+		for tj := ti - 1; tj >= 0; tj-- {
+			p := trace[tj]
+			if p.inst != ev.inst {
+				continue
+			}
+			if p.stream == ev.stream {
+				if len(others) >= size {
+					evicted = true
+					for o := range others {
+						if c11RuntimeSchemas(calls[o]) != c11RuntimeSchemas(calls[ev.stream]) {
+							evictedOther = true
+						}
+					}
+				}
+				break
+			}
+			others[p.stream] = true
+		}
+	}
+	if evicted {
+		out.Label("continuation-after-eviction")
+	}
+	if evictedOther {
+		out.Label("evicted-by-stream-of-other-schema")
+	}
+	for k := range calls {
+		if views[k].Turns > maxTurns {
+			maxTurns = views[k].Turns
+		}
+	}
+	out.NonTrivial = maxTurns >= 3
+	for k := range calls {
+		if views[k].Broken != "" {
+			out.Violate("C11/http-broken", "HTTP run of stream %d broken: %s", k, views[k].Broken)
+			return
+		}
+		a, b := viewSummary(pipeViews[k]), viewSummary(views[k])
+		if reflect.DeepEqual(a, b) {
+			continue
+		}
+		i := 0
+		for i < len(a) && i < len(b) && a[i] == b[i] {
+			i++
+		}
+		pa, pb := "<end>", "<end>"
+		if i < len(a) {
+			pa = a[i]
+		}
+		if i < len(b) {
+			pb = b[i]
+		}
+		out.Violate(lib.Keyf("C11", "differs-with-other-streams-open", calls[k].ConcreteKind()),
+			"stream %d of %d open at once (%s; caches %v, limit %d): first difference at item %d (HTTP used %d requests):\n pipe: %s\n http: %s\n request order (stream,request,instance): %v",
+			k, n, c11RuntimeSchemas(calls[k]), c.Caches, c.Limit, i, views[k].Turns, lib.Short(pa, 300), lib.Short(pb, 300), trace)
+		return
+	}
+	return
+}
+
 func runC11(c c11Case) (out lib.Outcome) {
+	if len(c.Peers) > 0 {
+		return runC11Interleaved(c)
+	}
 	lib.ResetEvents()
 	call := c.Call
 	kind := call.ConcreteKind()
@@ -229,10 +460,12 @@ func filterEvents(ev []string) []string {
 var propC11 = lib.Prop[c11Case]{
 	ID: "C11",
 	Rule: "scripted producer / exchange / dynamic-producer / dynamic-exchange streams (with and without a StreamResult.InputSchema), +-header, turn scripts with every outcome, per-emit metadata, inputs equal/castable/uncastable, cancel (exchange: any input; producer: at a batch-limit boundary), init failures; configuration: producer batch limit 0/1/2/5, 1-3 server instances sharing the key with call cache 0 or default and each HTTP request routed to a drawn instance, client compression on/off. " +
+		"One case in five opens 2-4 dynamic streams of drawn runtime schemas (wide/narrow output, with/without an input schema, producer/exchange) at once on 1-2 instances with call cache 0, 1, 2 or default and interleaves their requests by a drawn schedule (one request in flight at a time), so that a stream's cached call state is evicted by another stream's before its continuation; every stream is compared with its own run alone over a pipe. " +
 		"Oracle: the client's view (header, ordered data batches with values/schema/user metadata, ordered log level/message/extras, terminating error type+message) over HTTP equals the view over a pipe. Non-trivial: >=2 continuations and (limit>=1 or >=2 instances or a cast).",
 	Gen:          genC11,
 	Run:          runC11,
-	Essential:    []string{"kind:producer", "kind:exchange", "dynamic-input-schema", "cast", "continuations>=2", "producer-cancel", "dynamic-cast-over-cached-instances"},
+	Essential:    []string{"kind:producer", "kind:exchange", "dynamic-input-schema", "cast", "continuations>=2", "producer-cancel", "dynamic-cast-over-cached-instances",
+		"interleaved-streams", "continuation-after-eviction", "evicted-by-stream-of-other-schema"},
 	EssentialMin: 300,
 }
 
